@@ -127,6 +127,15 @@ def check_fault(case, f, m, out, log, idx):
     if r.verdict is not False:
         out.violate('accepted', 'accepted|' + sigbase, '%s: verdict %r for a faulty document' % (tag, r.verdict), fault=f)
         return
+    if f.get('ctx') == 'before-SE':
+        hit = [e for e in r.errors if e.level == 'seg' and e.code == '3' and e.seg_id == f['seg_id']]
+        if not hit:
+            out.violate('missing', 'missing-error|' + sigbase, '%s: no segment error 3 for %s although it is required and absent; got %r' % (
+                tag, f['seg_id'], [(e.level, e.code, e.seg_id, e.seg_count) for e in r.errors]), fault=f)
+        elif len(r.errors) != len(hit):
+            e = [x for x in r.errors if x not in hit][0]
+            out.violate('collateral', 'collateral|%s|%s%s' % (sigbase, e.level, e.code), '%s: additional error: %r %s' % (tag, e, e.msg), fault=f)
+        return
     set_ord, pos_in_set = set_coords(mutated, where)
     coords = st_index_of(r, set_ord)
     slack = f.get('slack', 0)
